@@ -47,6 +47,7 @@ var V = 3
 var PS = new(S)
 var Fn F
 var Ch chan int
+var ChC chan C
 var Sl = []int{1, 2, 3}
 var IV I = C{}
 var JV J = jimpl{}
@@ -240,6 +241,10 @@ def forms():
     add("value-funclit", "wire.Value(func() int { return 1 })", res="func() int")
     add("value-nil", "wire.Value(nil)", expect="any")
     add("ifacevalue-ok", "wire.InterfaceValue(new(I), C{})", res="I", expect="ok")
+    # calls and receives inside wire.InterfaceValue (C13 refuses them for both kinds of value provider; the pinned tree and
+    # its own InterfaceValue golden case accept them: known finding, see known_findings.json)
+    add("ifacevalue-call", "wire.InterfaceValue(new(I), NewC())", res="I", key="ifacevalue:call-accepted")
+    add("ifacevalue-recv", "wire.InterfaceValue(new(I), <-ChC)", res="I", key="ifacevalue:call-accepted")
     add("ifacevalue-not-impl", "wire.InterfaceValue(new(I), S{})", res="I")
     add("ifacevalue-not-iface", "wire.InterfaceValue(new(C), C{})", res="C")
     add("ifacevalue-smaller-iface", "wire.InterfaceValue(new(J), IV)", res="J")
@@ -361,6 +366,9 @@ def eng_forms(pid, tier, wd, known, replay=None):
     if pid in ("C20", "C01"):
         import random as _random
         fs = fs + gen_forms(_random.Random(seed() * 7 + 3), 220 if tier == "quick" else 2500)
+    for f in fs:
+        if f["key"] == "ifacevalue:call-accepted" and pid != "C13":
+            f["expect"] = "any"          # C13's rule; under the other properties only their own contract is read
     if replay is not None and replay.get("input", {}).get("form"):
         rf = replay["input"]["form"]
         fs = [rf] if rf.get("generated") else [f for f in fs if f["name"] == rf["name"]]
@@ -420,7 +428,7 @@ def eng_forms(pid, tier, wd, known, replay=None):
         if pid == "C01":
             why = []        # under C01 only the compile oracle below applies
         if why:
-            if f["key"] in kf and (panicked or (rc != 0 and not positioned)):
+            if f["key"] in kf and ((panicked or (rc != 0 and not positioned)) if kf[f["key"]].get("when") != "accepted" else (rc == 0 and f["expect"] == "diag")):
                 knownl.append("%s: %s" % (f["key"], kf[f["key"]].get("what_fails", why[0])))
             else:
                 viol.append(({"property": pid, "kind": "failing-input", "broken": "C20 oracle on the wire binary", "input": {"form": {k: v for k, v in f.items() if not k.startswith("_")}},
